@@ -44,22 +44,63 @@ structure Good (b : Bool) (st : St) : Prop where
   inFile : b = true → st.locals.isSome = true ∧ st.localTasks.isSome = true
   top : b = false → st.locals = none ∧ st.localTasks = none ∧ ∀ t ∈ st.globalTasks, t.notCopy = true
 
-/-- what a step may do to the parts other steps rely on: placed statements stay placed, and a task that is
-new in the global queue is not a `.global` closure -/
+/-- a history of region operations: every operation was legal in a state satisfying the region invariant and
+did not panic; the outcome (`ok`, `placed`, or a diagnostic) is recorded -/
+inductive Path : Seg.State → List (Seg.Op × Seg.Out) → Seg.State → Prop
+  | nil (s : Seg.State) : Path s [] s
+  | cons {s s1 s' : Seg.State} {op : Seg.Op} {o : Seg.Out} {tr : List (Seg.Op × Seg.Out)} :
+      Seg.Inv s → Seg.Op.wf s op → Seg.step s op = (s1, o) → o ≠ .panic → Path s1 tr s' → Path s ((op, o) :: tr) s'
+
+def isDiag : Seg.Out → Bool
+  | .diag _ => true
+  | _ => false
+
+/-- number of operations of a history that ended in a diagnostic -/
+def diags (tr : List (Seg.Op × Seg.Out)) : Nat := (tr.filter fun p => isDiag p.2).length
+
+theorem diags_append (a b : List (Seg.Op × Seg.Out)) : diags (a ++ b) = diags a + diags b := by
+  simp [diags, List.filter_append]
+
+theorem Path.append {a b c : Seg.State} {t1 t2 : List (Seg.Op × Seg.Out)} (h1 : Path a t1 b) (h2 : Path b t2 c) :
+    Path a (t1 ++ t2) c := by
+  induction h1 with
+  | nil s => exact h2
+  | cons i w e n _ ih => exact .cons i w e n (ih h2)
+
+/-- the regions of `st'` are reached from those of `st` by a history of region operations, and every operation
+that ended in a diagnostic is accounted for by a new entry of `errors` -/
+def Traced (st st' : St) : Prop :=
+  ∃ tr, Path st.seg tr st'.seg ∧ st.errors.length + diags tr ≤ st'.errors.length
+
+theorem Traced.refl (st : St) : Traced st st := ⟨[], .nil _, by simp [diags]⟩
+
+theorem Traced.trans {a b c : St} (h1 : Traced a b) (h2 : Traced b c) : Traced a c := by
+  obtain ⟨t1, p1, e1⟩ := h1
+  obtain ⟨t2, p2, e2⟩ := h2
+  exact ⟨t1 ++ t2, p1.append p2, by rw [diags_append]; omega⟩
+
+/-- what a step may do to the parts other steps rely on: placed statements stay placed, a task that is new in
+the global queue is not a `.global` closure, and the regions change only through legal region operations -/
 def Ext (st st' : St) : Prop :=
-  st.seg.pending ⊆ st'.seg.pending ∧ ∀ t ∈ st'.globalTasks, t ∈ st.globalTasks ∨ t.notCopy = true
+  st.seg.pending ⊆ st'.seg.pending ∧ (∀ t ∈ st'.globalTasks, t ∈ st.globalTasks ∨ t.notCopy = true) ∧ Traced st st'
 
 /-- a step from a good state does not panic and ends in a good, extended state -/
 def Safe {X : Type} (b : Bool) (st : St) (r : Out (St × X)) : Prop :=
   r ≠ .stop .panic ∧ ∀ st' x, r = .ok (st', x) → Good b st' ∧ Ext st st'
 
-theorem Ext.refl (st : St) : Ext st st := ⟨fun _ h => h, fun _ h => .inl h⟩
+theorem Ext.refl (st : St) : Ext st st := ⟨fun _ h => h, fun _ h => .inl h, Traced.refl st⟩
 
 theorem Ext.trans {a b c : St} (h1 : Ext a b) (h2 : Ext b c) : Ext a c :=
   ⟨fun _ h => h2.1 (h1.1 h), fun t h => by
-    rcases h2.2 t h with h | h
-    · exact h1.2 t h
-    · exact .inr h⟩
+    rcases h2.2.1 t h with h | h
+    · exact h1.2.1 t h
+    · exact .inr h, h1.2.2.trans h2.2.2⟩
+
+/-- the regions change along a history, the global queue does not change -/
+theorem ext_of_path {st st'' : St} {tr : List (Seg.Op × Seg.Out)} (hp : st.seg.pending ⊆ st''.seg.pending)
+    (hg : st''.globalTasks = st.globalTasks) (hpath : Path st.seg tr st''.seg)
+    (he : st.errors.length + diags tr ≤ st''.errors.length) : Ext st st'' :=
+  ⟨hp, fun t m => .inl (hg ▸ m), tr, hpath, he⟩
 
 theorem TaskOk.mono {p q : List (Nat × Nat)} (h : p ⊆ q) {t : Task} (ht : TaskOk p t) : TaskOk q t := by
   cases t with
@@ -80,9 +121,10 @@ theorem good_pushIn {b : Bool} {st : St} (h : Good b st) (f : Bytes) (l c : Nat)
 theorem good_push {b : Bool} {st : St} (h : Good b st) (env : Env) (l c : Nat) (k : Kind) : Good b (st.push env l c k) :=
   good_pushIn h _ _ _ _
 
-theorem ext_pushIn (st : St) (f : Bytes) (l c : Nat) (k : Kind) : Ext st (st.pushIn f l c k) := Ext.refl st
+theorem ext_pushIn (st : St) (f : Bytes) (l c : Nat) (k : Kind) : Ext st (st.pushIn f l c k) :=
+  ⟨fun _ h => h, fun _ h => .inl h, [], .nil _, by simp [diags, St.pushIn]⟩
 
-theorem ext_push (st : St) (env : Env) (l c : Nat) (k : Kind) : Ext st (st.push env l c k) := Ext.refl st
+theorem ext_push (st : St) (env : Env) (l c : Nat) (k : Kind) : Ext st (st.push env l c k) := ext_pushIn ..
 
 /-- returning at once with a diagnostic -/
 theorem safe_push {X : Type} {b : Bool} {st : St} (h : Good b st) (env : Env) (l c : Nat) (k : Kind) (x : X) :
